@@ -26,8 +26,10 @@ from pathlib import Path
 
 ROOT = Path(__file__).resolve().parent.parent
 REPO = Path(os.environ.get('VERIF_REPO', '/repo'))
-EVIDENCE_DIR = ROOT / 'evidence'
-REPLAY_DIR = ROOT / 'replays'
+# VERIF_OUT: scratch runs (seed trials against another tree) write evidence and replays there, not into /verif
+OUT = Path(os.environ['VERIF_OUT']) if os.environ.get('VERIF_OUT') else ROOT
+EVIDENCE_DIR = OUT / 'evidence'
+REPLAY_DIR = OUT / 'replays'
 KNOWN_FINDINGS = ROOT / 'known_findings.json'
 MAX_REPORTED = 25  # VIOLATION lines / replay files per run (all are counted)
 MAX_SAMPLES = 8
